@@ -125,7 +125,7 @@ impl MatrixCell {
             .binary_search(&u)
             .unwrap_or_else(|_| panic!("node {u} not found in node boundary"));
         // return the row of the matrix
-        &self.matrix[index * self.incoming_nodes.len()..(index + 1) * self.outgoing_nodes.len()]
+        &self.matrix[index * self.outgoing_nodes.len()..(index + 1) * self.outgoing_nodes.len()]
     }
 
     pub fn overlay_edges(&self) -> Vec<InputEdge<usize>> {
@@ -135,7 +135,7 @@ impl MatrixCell {
         for i in 0..self.incoming_nodes.len() {
             let source = self.incoming_nodes[i];
             for j in 0..self.outgoing_nodes.len() {
-                let distance = self.matrix[i * j + i];
+                let distance = self.matrix[i * self.outgoing_nodes.len() + j];
                 if distance != usize::MAX {
                     let target = self.outgoing_nodes[j];
                     let edge = InputEdge {
